@@ -116,7 +116,24 @@ class SimStoreB(SimStore):
     __slots__ = ()
 
 
-STORE_CLASSES = {"A": SimStore, "B": SimStoreB}
+class SimStoreLen(SimStore):
+    """A container-like store: len(store) is the number of stored items, so the object is falsy while nothing (or an
+    empty payload) is stored - truthiness of a ValueStore carries no meaning for uberjob."""
+
+    __slots__ = ()
+
+    def __len__(self):
+        rt = RT[0]
+        if rt is None or rt.disk.mtime(self.name) is None:
+            return 0
+        v = rt.disk.value(self.name)
+        try:
+            return len(v)
+        except TypeError:
+            return 0 if v is None else 1
+
+
+STORE_CLASSES = {"A": SimStore, "B": SimStoreB, "L": SimStoreLen}
 
 
 class FileDisk(Disk):
